@@ -205,6 +205,24 @@ PROPS['C15'] = dict(
     explanation='The inbound stream is a ghost cursor plus one watched position; the loop invariant says the bytes received so far sit at their stream offsets, so any chunking yields the same buffer.',
 )
 
+PROPS['C26'] = dict(
+    units=['k_mper'], level='proof', design_ref='6/C26',
+    technique='CBMC harness contracts (one dfcc loop contract) on MemoryPersister::put(seq,text), put(sender,target), get(seq,text), get(sender&,target&), get_last_seqnum, '
+              'find_nearest_highest_seqnum extracted from the clang AST of runtime/persist.cpp; std::map and std::string are assumed models in the single-witness abstraction '
+              '(one arbitrary watched key exact, all other keys nondeterministic, maximum key tracked)',
+    text='Memory persister, per-operation store contract (proved-modular, for every store state expressible through the watched key and every argument): storing to 0 or to an occupied number is '
+         'refused and leaves the stored text untouched; storing to a free number makes exactly that text the one get returns; get hits exactly the stored numbers; the control record returned is the '
+         'LAST pair stored and a control put always succeeds (both obligations failed before fixes 4ce2d71 / 7005104); the last sequence number is the largest stored key (0 when empty) and not '
+         'below any stored number; nearest-highest (requested >= 1) lies in [requested, last] and is not above any stored number in that range (loop contract, every range). These are the '
+         'inductive steps of "behaves like a map from sequence number to bytes plus one control record" for every sequence of these operations. NOT decided: the range retrieval '
+         'MemoryPersister::get(from, to, session, callback) (callback protocol), the whole FilePersister (lseek/read/write over two files), the history lemma as one composed statement.',
+    note='std::map / std::string are ASSUMED models (single-witness abstraction); FilePersister and the range-get callback protocol are not covered; find_nearest_highest_seqnum(0, last) returns 0 '
+         'when a control record exists (key 0 is found first): requested >= 1 is a stated precondition (sequence numbers start at 1)',
+    trusted_base=COMMON_TRUST,
+    explanation='Each for-all-keys clause of the store contract is stated about one arbitrary ghost key; the map model answers exactly for that key and nondeterministically for every other, '
+                'so a proof holds for every key and every map by generalisation.',
+)
+
 # ---------------------------------------------------------------- native replayers
 import os
 from vlib import replay as _rp
@@ -338,6 +356,19 @@ def _replay_k_enc(oid, inputs, trace, wd):
                 reproduced=rc == 1)
 
 
+def _replay_k_mper(oid, inputs, trace, wd):
+    R = _rp.astdump.REPO
+    exe = _rp.build_native(os.path.join(_rp.VERIF, 'replay', 'k_mper.cpp'), os.path.join(wd, 'replay_k_mper'),
+                           extra=[R + '/runtime/persist.cpp', R + '/runtime/logger.cpp', R + '/runtime/f8utils.cpp', '-lz'], timeout=1200)
+    os.makedirs(os.path.join(wd, 'mperscratch'), exist_ok=True)
+    import subprocess
+    env = dict(os.environ, ASAN_OPTIONS='detect_leaks=0')
+    p = subprocess.run([exe, 'search'], cwd=os.path.join(wd, 'mperscratch'), stdout=subprocess.PIPE, stderr=subprocess.STDOUT, text=True, timeout=900, env=env)
+    return dict(steps=[dict(kind='native contract-checking search: every sequence of up to 5 store operations against a reference map', rc=p.returncode, output=p.stdout[-1500:])],
+                reproduced=p.returncode == 1)
+
+
+replayers['k_mper'] = _replay_k_mper
 replayers['k_enc'] = _replay_k_enc
 replayers['k_sched'] = _replay_k_sched
 replayers['k_log'] = _replay_k_log
